@@ -1437,6 +1437,9 @@ class Complex_Literal_Constant(Base):  # R421
 
     @staticmethod
     def match(string):
+        if string:
+            # Tolerate surrounding white space, as the other primaries do.
+            string = string.strip()
         if not string or string[0] + string[-1] != "()":
             return
         if not pattern.abs_complex_literal_constant.match(string):
